@@ -130,7 +130,9 @@ fn run_font(out: &mut Out, case: &str, cls: &str, carrier: &str, f: &BitFont, ot
             through(|| {
                         let file = buf.to_bytes("icy", &o).map_err(|e| e.to_string())?;
                         let chunks = unwrap_chunks(&file)?;
-                        let payload = chunks.into_iter().find(|(k, _)| *k == format!("FONT_{slot}")).map(|(_, d)| d).ok_or("no FONT chunk")?;
+                        // a writer may leave a chunk out when the loader reconstructs the font anyway: the verdict is what is loaded back,
+                        // the missing chunk only shows as model drift (carrier-bytes-vs-font-written)
+                        let payload = chunks.into_iter().find(|(k, _)| *k == format!("FONT_{slot}")).map(|(_, d)| d).unwrap_or_default();
                         *cell.borrow_mut() = file;
                         Ok(bytes_value(&payload))
                     },
@@ -323,6 +325,32 @@ pub fn c17(a: &Args) {
             let chosen: Vec<&str> = if thorough { usable.clone() } else { vec![usable[(k + seed as usize) % usable.len()]] };
             for carrier in chosen {
                 run_font(&mut out, label, "builtin", carrier, f, None, if carrier == "icy" || carrier == "dcs" { 1 + k % 40 } else { 0 }, k as u64 + seed);
+                n_font += 1;
+            }
+        }
+    }
+
+    // (2b) "the default font" as its own input class for the IcyDraw carrier (a writer may treat it specially): the built-in
+    //      page 0 in several slots, a font that only carries the default font's NAME (other glyphs), the default glyphs
+    //      under another name, and every built-in page through IcyDraw in a slot other than its own
+    if only.is_empty() || only == "builtin" {
+        if let Ok(Ok(def)) = guard(|| BitFont::from_ansi_font_page(0).map_err(|e| e.to_string())) {
+            for slot in [0usize, 1, 5, 42, 300] {
+                run_font(&mut out, &format!("default-slot-{slot}"), "default-font", "icy", &def, None, slot, slot as u64);
+                n_font += 1;
+            }
+            let mut r = rng(seed, 19);
+            let data: Vec<u8> = (0..256 * 16).map(|_| r.gen()).collect();
+            let mut imp = BitFont::create_8(def.name.clone(), 8, 16, &data);
+            imp.name = def.name.clone();
+            for slot in [0usize, 3] {
+                run_font(&mut out, &format!("default-name-other-glyphs-{slot}"), "default-font", "icy", &imp, None, slot, slot as u64);
+                n_font += 1;
+            }
+            let mut renamed = def.clone();
+            renamed.name = "my copy".to_string();
+            for slot in [0usize, 2] {
+                run_font(&mut out, &format!("default-glyphs-other-name-{slot}"), "default-font", "icy", &renamed, None, slot, slot as u64);
                 n_font += 1;
             }
         }
